@@ -74,12 +74,12 @@ Print Assumptions C03_last_deprecated_wins.
 (* ---- from the text to the parse tree (model: generic lexer + parser on the grammar translated from Idl.g4; tie: K-parse) ----
    nothing of the text is lost or invented by lexing, and every token's recorded line / column is the position reached by reading
    the text in front of it: positions delimit the text of their construct *)
-Theorem C03_lexemes_partition_the_text : forall rules mf steps s line col ls,
-  lex_from steps mf rules s line col = Some ls -> concat_lexemes ls = s.
+Theorem C03_lexemes_partition_the_text : forall rules steps s line col ls,
+  lex_from steps rules s line col = Some ls -> concat_lexemes ls = s.
 Proof. exact lex_partition. Qed.
 Print Assumptions C03_lexemes_partition_the_text.
 
-Theorem C03_token_positions : forall rules mf steps s line col ls, lex_from steps mf rules s line col = Some ls ->
+Theorem C03_token_positions : forall rules steps s line col ls, lex_from steps rules s line col = Some ls ->
   forall pre t post, ls = pre ++ LexTok t :: post -> (tk_line t, tk_col t) = advance (concat_lexemes pre) line col.
 Proof. exact lex_positions. Qed.
 Print Assumptions C03_token_positions.
